@@ -201,6 +201,13 @@ func offerScenario(t int, seed int64, slow bool) ([]map[string]any, error) {
 	if race {
 		limit, va, qcap = 8, []uint8{1}, 50
 	}
+	// TLC's EndClearsOfferedKeys counterexample (MC_Offer_DevEndClears): offer 0 is accepted for key a and kept waiting,
+	// offer 1 contains a (declined, in flight) plus a fresh key and its transfer ends at once (wrong item count),
+	// offer 2 contains a again - it must still not be accepted
+	overlap := t%5 == 3
+	if overlap {
+		limit, va, qcap = 8, []uint8{1}, 50
+	}
 	st := &netsim.RadiusStore{}
 	B, err := netsim.NewNode(sw, netsim.NodeOpts{IP: "10.0.0.2", Port: 9002, MaxUtp: limit, QueueCap: qcap, Store: st})
 	if err != nil {
@@ -284,6 +291,20 @@ func offerScenario(t int, seed int64, slow bool) ([]map[string]any, error) {
 		if race && o == 1 && len(holds) > 0 { // overlap with the offer whose goroutine is being held
 			perm[0] = holds[0].keys[0]
 		}
+		if overlap && o <= 2 {
+			if o == 0 {
+				perm = rng.Perm(len(universe))[:2]
+			} else if len(holds) > 0 {
+				perm = []int{holds[0].keys[0]}
+				for _, c := range rng.Perm(len(universe)) { // plus a key that is acceptable right now
+					if c != perm[0] && !inflight[c] && !universe[c].stored && universe[c].inrange {
+						perm = append(perm, c)
+						break
+					}
+				}
+			}
+			n = len(perm)
+		}
 		keys := make([][]byte, n)
 		kfacts := []map[string]any{}
 		for i, ki := range perm {
@@ -365,6 +386,11 @@ func offerScenario(t int, seed int64, slow bool) ([]map[string]any, error) {
 			kind := []string{"correct", "correct", "correct", "short", "long", "hold"}[rng.Intn(6)]
 			if race && o == 0 {
 				kind = "hold"
+			}
+			if overlap && o == 0 {
+				kind = "hold"
+			} else if overlap && o == 1 {
+				kind = "long"
 			}
 			ev["transfer"] = kind
 			for _, ki := range accIdx {
